@@ -232,7 +232,13 @@ Definition write (fs : fsinfo) (overwrite do_validate : bool) (md : metainfo) (t
      end) ex_write_steps None t.
 
 (* stream: seekable?, current content, does write() fail with OSError? *)
-Record stream_st := { ss_seekable : bool; ss_content : bytes; ss_fail : bool }.
+Record stream_st := { ss_seekable : bool; ss_content : bytes; ss_pos : Z; ss_fail : bool }.
+
+(* a file-like write at a position: what lies before the position is kept (padded with zero bytes if the
+   position is beyond the end), then the new bytes, then whatever the old content had beyond them *)
+Definition write_at (old : bytes) (pos : Z) (c : bytes) : bytes :=
+  let p := Z.to_nat pos in
+  firstn p old ++ repeat 0%N (p - length old) ++ c ++ skipn (p + length c) old.
 
 Definition write_stream (fs : fsinfo) (do_validate : bool) (md : metainfo) (s : stream_st) : res unit * stream_st :=
   (fix go (steps : list ex_sstep) (content : option bytes) (s : stream_st) : res unit * stream_st :=
@@ -244,13 +250,16 @@ Definition write_stream (fs : fsinfo) (do_validate : bool) (md : metainfo) (s : 
          | Err e => (Err e, s)
          end
      | SSeekTruncate :: r =>
+         (* stream.seek(0); stream.truncate(0) *)
          if ss_seekable s
-         then go r content {| ss_seekable := true; ss_content := []; ss_fail := ss_fail s |}
+         then go r content {| ss_seekable := true; ss_content := []; ss_pos := 0; ss_fail := ss_fail s |}
          else go r content s
      | SWrite :: r =>
          if ss_fail s then (Err DWrite, s)
-         else go r content {| ss_seekable := ss_seekable s;
-                              ss_content := ss_content s ++ (match content with Some c => c | None => [] end);
+         else let c := match content with Some c => c | None => [] end in
+              go r content {| ss_seekable := ss_seekable s;
+                              ss_content := write_at (ss_content s) (ss_pos s) c;
+                              ss_pos := ss_pos s + Z.of_nat (length c);
                               ss_fail := ss_fail s |}
      end) ex_write_stream_steps None s.
 
